@@ -5,12 +5,14 @@ namespace PhyVerif.C10.Lemmas
 open PhyVerif PhyVerif.C10
 open PhyVerif.C18 (Cell)
 
+variable {α : Type} [Zero α]
+
 /-! ### assignments, unreadable files, `cluster_info` -/
 
-theorem clusters_last_saved (render : Cell → String) (d : Disk) (ops : List Op) :
-    (run render d ops).clusters = (absRun ⟨d.clusters, []⟩ ops).clusters := by
-  suffices h : ∀ (d : Disk) (a : Abs), d.clusters = a.clusters →
-      (run render d ops).clusters = (absRun a ops).clusters from h d _ rfl
+theorem clusters_last_saved (render : Cell → String) (scale : α → α) (d : Disk α) (ops : List Op) :
+    (run render scale d ops).clusters = (absRun ⟨d.clusters, []⟩ ops).clusters := by
+  suffices h : ∀ (d : Disk α) (a : Abs), d.clusters = a.clusters →
+      (run render scale d ops).clusters = (absRun a ops).clusters from h d _ rfl
   induction ops with
   | nil => intro d a h; exact h
   | cons op ops ih =>
@@ -23,12 +25,12 @@ theorem unreadable_ignored (parse : String → Cell) (files : List (FName × Fil
     metadataView parse (putFile files name .unreadable) =
       metadataView parse (files.filter fun p => p.1 != name) := by
   obtain ⟨s, b⟩ := name
-  cases b <;> simp [metadataView, putFile, List.foldl_append, loadMetadata, List.filter_append]
+  cases b <;> simp [metadataView, metadataViewIn, viewStep, putFile, List.foldl_append, loadMetadata, List.filter_append]
 
 theorem cluster_info_excluded (parse : String → Cell) (files : List (FName × File)) (tsv : Bool) (f : File) :
     metadataView parse (putFile files ("cluster_info", tsv) f) =
       metadataView parse (files.filter fun p => p.1 != ("cluster_info", tsv)) := by
-  cases tsv <;> simp [metadataView, putFile, List.foldl_append, List.filter_append]
+  cases tsv <;> simp [metadataView, metadataViewIn, viewStep, putFile, List.foldl_append, List.filter_append]
 
 /-! ### metadata refinement -/
 
@@ -37,7 +39,7 @@ def cellPair (p : Nat × Cell) : Cell × Cell := (.int p.1, p.2)
 /-- the per-row update of `loadMetadata` -/
 def rowStep (parse : String → Cell) (out : List (String × List (Cell × Cell)))
     (row : List (String × String)) : List (String × List (Cell × Cell)) :=
-  match row.lookup "cluster_id" with
+  match row.reverse.lookup "cluster_id" with
   | none => out
   | some cid =>
     (row.filter fun p => p.1 != "cluster_id").foldl (fun out2 p =>
@@ -68,8 +70,9 @@ theorem rowStep_simple (render : Cell → String) (parse : String → Cell)
       [("cluster_id", toString p.1), (f, render p.2)] := by
     simp only [List.zip_cons_cons, List.zip_nil_right, List.filter_cons, List.filter_nil, hne', hts,
       if_true]
-  have hl : List.lookup "cluster_id" [("cluster_id", toString p.1), (f, render p.2)] =
-      some (toString p.1) := by simp
+  have hfb : ("cluster_id" == f) = false := by simpa using fun h => hf h.symm
+  have hl : List.lookup "cluster_id" [("cluster_id", toString p.1), (f, render p.2)].reverse =
+      some (toString p.1) := by simp [List.lookup_cons, hfb]
   have hfil : ([("cluster_id", toString p.1), (f, render p.2)].filter fun p => p.1 != "cluster_id") =
       [(f, render p.2)] := by simp [hf']
   rw [hrow]
@@ -198,10 +201,10 @@ theorem name_bne (a b : String) :
   rw [String.append_right_inj]
 
 theorem files_eq_step (render : Cell → String) (csvs : List (FName × File))
-    (hcsv : ∀ p ∈ csvs, p.1.2 = false) (d : Disk) (a : Abs) (op : Op)
+    (hcsv : ∀ p ∈ csvs, p.1.2 = false) (scale : α → α) (d : Disk α) (a : Abs) (op : Op)
     (hop : match op with | .writeFile _ _ => False | _ => True)
     (h : d.files = csvs ++ a.fields.map (fileOf render)) :
-    (step render d op).files = csvs ++ (absStep a op).fields.map (fileOf render) := by
+    (step render scale d op).files = csvs ++ (absStep a op).fields.map (fileOf render) := by
   cases op with
   | writeFile s f => exact hop.elim
   | saveMeta field m =>
@@ -223,17 +226,17 @@ theorem files_eq_step (render : Cell → String) (csvs : List (FName × File))
   | _ => exact h
 
 theorem files_eq (render : Cell → String) (csvs : List (FName × File))
-    (hcsv : ∀ p ∈ csvs, p.1.2 = false) (ops : List Op) :
-    ∀ (d : Disk) (a : Abs), (∀ op ∈ ops, match op with | .writeFile _ _ => False | _ => True) →
+    (hcsv : ∀ p ∈ csvs, p.1.2 = false) (scale : α → α) (ops : List Op) :
+    ∀ (d : Disk α) (a : Abs), (∀ op ∈ ops, match op with | .writeFile _ _ => False | _ => True) →
       d.files = csvs ++ a.fields.map (fileOf render) →
-      (run render d ops).files = csvs ++ (absRun a ops).fields.map (fileOf render) := by
+      (run render scale d ops).files = csvs ++ (absRun a ops).fields.map (fileOf render) := by
   induction ops with
   | nil => intro d a _ h; exact h
   | cons op ops ih =>
     intro d a hops h
     simp only [run, absRun, List.foldl_cons] at ih ⊢
     exact ih _ _ (fun o ho => hops o (List.mem_cons_of_mem _ ho))
-      (files_eq_step render csvs hcsv d a op (hops op (List.mem_cons_self ..)) h)
+      (files_eq_step render csvs hcsv scale d a op (hops op (List.mem_cons_self ..)) h)
 
 /-- invariant of the abstract metadata state -/
 def FieldsOK (l : List (String × List (Nat × Cell))) : Prop :=
@@ -305,14 +308,6 @@ theorem lookup_upsert_self {β : Type} (l : List (String × β)) (s : String) (x
   rw [List.lookup_append, this]
   simp
 
-
-/-- one step of `metadataView` -/
-def viewStep (parse : String → Cell) (acc : List (String × List (Cell × Cell))) (p : FName × File) :
-    List (String × List (Cell × Cell)) :=
-  if p.1.1 == "cluster_info" then acc else
-  match loadMetadata parse p.2 with
-  | none => acc
-  | some fields => fields.foldl (fun a fd => (a.filter fun q => q.1 != fd.1) ++ [fd]) acc
 
 theorem metadataView_eq (parse : String → Cell) (files : List (FName × File)) :
     metadataView parse files =
@@ -408,30 +403,30 @@ theorem lookup_view (render : Cell → String) (parse : String → Cell)
 
 theorem metadata_last_saved (render : Cell → String) (parse : String → Cell)
     (hrt : ∀ c, parse (render c) = c) (hne : ∀ c, render c ≠ "")
-    (hid : ∀ n : Nat, parse (toString n) = .int n)
-    (csvs : List (FName × File)) (hcsv : ∀ p ∈ csvs, p.1.2 = false)   -- any legacy CSV files, any content
+    (hid : ∀ n : Nat, parse (toString n) = .int n) (scale : α → α)
+    (d : Disk α) (hcsv : ∀ p ∈ d.files, p.1.2 = false)   -- any legacy CSV files, any content
     (ops : List Op) (hown : OwnOps ops) (field : String) (vals : List (Nat × Cell))
     (hf : (absRun ⟨[], []⟩ ops).fields.lookup field = some vals)
     (hinfo : field ≠ "info")     -- `cluster_info.tsv` is deliberately ignored on load
     (hvals : vals ≠ []) :
-    fieldView parse (run render ⟨[], csvs, false⟩ ops) field =
+    fieldView parse (run render scale d ops) field =
       some (vals.map fun p => (Cell.int p.1, p.2)) := by
-  have hfiles := files_eq render csvs hcsv ops ⟨[], csvs, false⟩ ⟨[], []⟩
+  have hfiles := files_eq render d.files hcsv scale ops d ⟨[], []⟩
     (fun op hop => by
       have := hown op hop
       cases op <;> first | exact this | trivial) (by simp)
   have hok := fieldsOK_run ops ⟨[], []⟩ hown ⟨List.nodup_nil, fun _ h => by simp at h⟩
-  rw [fieldView, hfiles, metadataView_split render parse csvs hcsv]
+  rw [fieldView, hfiles, metadataView_split render parse d.files hcsv]
   exact lookup_view render parse hrt hne hid field vals hinfo hvals _ _ hok hf
 
 /-! ### frame -/
 
-theorem step_frame (render : Cell → String) (d : Disk) (op : Op) (name : FName)
+theorem step_frame (render : Cell → String) (scale : α → α) (d : Disk α) (op : Op) (name : FName)
     (hs : match op with
       | .saveMeta field _ => name ≠ ("cluster_" ++ field, true)
       | .writeFile s _ => name ≠ s
       | _ => True) :
-    (step render d op).files.lookup name = d.files.lookup name := by
+    (step render scale d op).files.lookup name = d.files.lookup name := by
   cases op with
   | saveMeta field m => exact lookup_upsert_ne _ _ _ _ hs
   | writeFile s f => exact lookup_upsert_ne _ _ _ _ hs
